@@ -313,47 +313,116 @@ def breakpoints(sa, extra=()):
 
 # ------------------------------------------------------------------ schedules
 
-def enum_schedules(counts, max_pre, cap, rnd):
-    """All segment lists with at most max_pre pre-emptions (a switch away from an unfinished thread)
-    for threads with `counts` steps when run alone; beyond `cap`, every schedule with fewer
-    pre-emptions plus a seeded sample.  -> (list of segment lists, exhaustive?)"""
-    nt = len(counts)
-    out = []
+ENUM_LIMIT = 150000     # schedules enumerated before falling back to direct sampling (bounds time and memory)
 
-    def rec(segs, done, pre, last):
-        # continue: pick the next thread to run
+
+def _gen_schedules(counts, max_pre):
+    """generator of (pre-emptions, segment list) for all schedules with at most max_pre pre-emptions"""
+    nt = len(counts)
+    segs = []
+
+    def rec(done, pre, last):
         unfinished = [t for t in range(nt) if done[t] < counts[t]]
         if not unfinished:
-            out.append((pre, list(segs)))
+            yield pre, list(segs)
             return
         for t in unfinished:
             if t == last:
                 continue
             remaining = counts[t] - done[t]
-            # run t to completion (no pre-emption)
-            segs.append((t, None))
+            segs.append((t, None))          # run t to completion (no pre-emption)
             d2 = list(done)
             d2[t] = counts[t]
-            rec(segs, d2, pre, t)
+            yield from rec(d2, pre, t)
             segs.pop()
             if pre < max_pre and len(unfinished) > 1:
                 for kk in range(1, remaining):
                     segs.append((t, kk))
                     d2 = list(done)
                     d2[t] += kk
-                    rec(segs, d2, pre + 1, t)
+                    yield from rec(d2, pre + 1, t)
                     segs.pop()
 
-    rec([], [0] * nt, 0, None)
-    if len(out) <= cap:
-        return [s for _, s in out], True
-    low = [s for p, s in out if p < max_pre]
-    high = [s for p, s in out if p >= max_pre]
-    if len(low) > cap:
-        rnd.shuffle(low)
-        return low[:cap], False
+    yield from rec([0] * nt, 0, None)
+
+
+def _random_schedule(counts, max_pre, rnd):
+    """one schedule with at most max_pre pre-emptions, built directly"""
+    nt = len(counts)
+    done = [0] * nt
+    segs, pre, last = [], 0, None
+    target = rnd.randint(1, max_pre) if max_pre else 0
+    while True:
+        unfinished = [t for t in range(nt) if done[t] < counts[t] and t != last]
+        if not unfinished:
+            if all(done[t] >= counts[t] for t in range(nt)):
+                return segs
+            unfinished = [last]
+        t = rnd.choice(unfinished)
+        remaining = counts[t] - done[t]
+        others = any(done[u] < counts[u] for u in range(nt) if u != t)
+        if pre < target and remaining > 1 and others:
+            kk = rnd.randrange(1, remaining)
+            segs.append((t, kk))
+            done[t] += kk
+            pre += 1
+        else:
+            segs.append((t, None))
+            done[t] = counts[t]
+        last = t
+
+
+def enum_schedules(counts, max_pre, cap, rnd):
+    """All segment lists with at most max_pre pre-emptions (a switch away from an unfinished thread)
+    for threads with `counts` steps when run alone; beyond `cap`, every schedule with fewer
+    pre-emptions plus a seeded sample.  The enumeration is lazy (reservoir sampling, nothing but the kept
+    schedules in memory) and stops after ENUM_LIMIT schedules, the rest of the sample then being built directly.
+    -> (list of segment lists, exhaustive?)"""
+    low, high, n_low, n_high, n = [], [], 0, 0, 0
+    truncated = False
+    for pre, segs in _gen_schedules(counts, max_pre):
+        n += 1
+        if n > ENUM_LIMIT:
+            truncated = True
+            break
+        if pre < max_pre:
+            n_low += 1
+            if len(low) <= cap:             # complete while it fits, a uniform reservoir afterwards
+                low.append(segs)
+            else:
+                j = rnd.randrange(n_low)
+                if j <= cap:
+                    low[j] = segs
+        else:
+            n_high += 1
+            if len(high) < cap:
+                high.append(segs)
+            else:
+                j = rnd.randrange(n_high)
+                if j < cap:
+                    high[j] = segs
+    if not truncated and n <= cap:
+        return low + high, True
     rnd.shuffle(high)
-    return low + high[: cap - len(low)], False
+    if n_low > cap:
+        # more schedules with fewer pre-emptions than the cap: two thirds of them, one third with max_pre pre-emptions
+        rnd.shuffle(low)
+        out = low[: cap - min(len(high), cap // 3)] + high[: cap // 3]
+    else:
+        out = low + high[: cap - len(low)]
+    if truncated:
+        # replace half of the sample by schedules drawn over the WHOLE space (the lazy enumeration only saw a prefix of it)
+        keep = out[: max(len(low) if n_low <= cap else 0, cap // 2)][:cap]
+        seen = {repr(x) for x in keep}
+        tries = 0
+        while len(keep) < cap and tries < 20 * cap:
+            tries += 1
+            sg = _random_schedule(counts, max_pre, rnd)
+            if repr(sg) not in seen:
+                seen.add(repr(sg))
+                keep.append(sg)
+        out = keep
+    return out, False
 
 
 # ------------------------------------------------------------------ the schedule stream (one task per kind x op tuple)
@@ -855,6 +924,9 @@ def replay_witness(rep, sa, bps, name):
 # ------------------------------------------------------------------ replay
 
 def replay(obj):
+    if obj.get("stream") == "lines" and "segments" in obj:
+        from harness import c20lines as LN
+        return LN.replay(obj)
     if "segments" not in obj or "kind" not in obj:
         print("nothing to replay on the implementation:", obj.get("what"))
         return 1
@@ -888,13 +960,188 @@ def replay(obj):
     return 1 if fails else 0
 
 
+# ------------------------------------------------------------------ caches and the every-line stream
+
+HEADER2 = """From Coq Require Import List Arith Bool String. Import ListNotations.
+From TP Require Import Check.C20chk Check.C20cachechk Check.C20classchk.
+Local Open Scope string_scope.
+"""
+
+CVERDICT_NAMES = {0: "CacheSafe", 2: "CacheRacy", 4: "CacheUndecided"}
+
+
+def coq_classification2(sa, ca, trees, classes=None):
+    """racy validators inside every profile field; verdict / witness / placeholder line of every cache entry;
+    class-level safety (Global/ClassModel.v) of every class profile"""
+    idx = {e["name"]: i for i, e in enumerate(sa["entries"])}
+    classes = classes or {}
+    cnames = sorted(classes)
+    body = "Eval vm_compute in cache_verdicts.\nEval vm_compute in cache_witnesses.\nEval vm_compute in cache_placeholder_tags.\n"
+    for (_, _, _, t) in trees:
+        body += "Eval vm_compute in (racy_nodes %s).\n" % emit_tree(t, idx)
+    for cn in cnames:
+        body += "Eval vm_compute in (class_safe_of %s).\n" % E.lst([str(i) for i in classes[cn][0]])
+    rc, out, err = core.eval_cases([body], "c20cls2", HEADER2)[0]
+    vals = core.parse_eval(out)
+    if rc != 0 or len(vals) != 3 + len(trees) + len(cnames):
+        return None, (out + err)[-1500:]
+    class_vals = vals[3 + len(trees):]
+    vals = vals[:3 + len(trees)]
+    codes = core.parse_nat_list(vals[0])
+    wit = core.parse_nat_list(vals[1])
+    tags = core.parse_nat_list(vals[2])
+    if len(codes) != len(ca["entries"]) or len(wit) != 5 * len(codes) or len(tags) != len(codes):
+        return None, "the cache table in Coq (%d entries) differs from the generated one (%d)" % (len(codes), len(ca["entries"]))
+    caches = []
+    for i, e in enumerate(ca["entries"]):
+        w = wit[5 * i:5 * i + 5]
+        caches.append({"name": e["name"], "verdict": codes[i], "witness": w[1:] if w[0] else None, "tag": tags[i]})
+    racy = []
+    for v in vals[3:]:
+        racy.append([sa["entries"][i]["name"] if i < len(sa["entries"]) else "?" for i in core.parse_nat_list(v)])
+    return {"caches": caches, "racy": racy,
+            "class_safe": {cn: v.strip().startswith("true") for cn, v in zip(cnames, class_vals)}}, ""
+
+
+def cache_stream(rep, ca, cls2, model_ok):
+    """classification of the generated cache protocols (in scope: those the operations really touch), logged real
+    accesses checked against the protocols in Coq, the model's witness replayed for racy entries"""
+    from harness import c20lines as LN
+    cases, touched, problems = LN.cache_traces(ca)
+    in_scope = set(touched) | {i for i, e in enumerate(ca["entries"]) if e["kind"] in ("lru", "field-attr")}
+    rep.cov["cache_table"] = [{"name": e["name"], "kind": e["kind"], "in_scope": i in in_scope,
+                               "protocols": {pr["fn"]: [a[0] for a in pr["acts"]] for pr in e["progs"]},
+                               "verdict": CVERDICT_NAMES.get(cls2["caches"][i]["verdict"], "?") if cls2 else "?"}
+                              for i, e in enumerate(ca["entries"])]
+    rep.obligation("regen:cache-table-complete", not problems,
+                   "%d real calls touch %d cache(s); every accessing function is listed in the generated table" % (len(cases), len(touched))
+                   if not problems else "; ".join(problems[:4]))
+    for ei, pi, evs, meta in cases:
+        rep.count("cache-traces", 1, (ei, pi, tuple(evs)))
+        rep.stat("cache-traces", "%s:%s" % (meta["entry"], " ".join(evs) or "-"))
+    if not model_ok or cls2 is None:
+        return in_scope
+    # correspondence in Coq
+    if cases:
+        body = "Definition cases : list cachecase := %s.\n" % E.lst(
+            ["\n {| cc_entry := %d; cc_prog := %d; cc_evs := %s |}" % (ei, pi, E.lst(evs)) for ei, pi, evs, _ in cases])
+        body += "Eval vm_compute in (cidx_where cache_mismatch cases 0).\nEval vm_compute in (cidx_where stores_nonfinal cases 0).\n"
+        rc, out, err = core.eval_cases([body], "c20cache", HEADER2)[0]
+        vals = core.parse_eval(out)
+        if rc != 0 or len(vals) != 2:
+            rep.obligation("correspondence:cache-traces", False, (out + err)[-600:])
+            rep.broken("correspondence:cache-traces/coq-eval", (out + err)[-1500:])
+        else:
+            mism = core.parse_nat_list(vals[0])
+            nonfinal = core.parse_nat_list(vals[1])
+            rep.obligation("correspondence:cache-traces", not mism,
+                           "%d real calls, %d whose logged accesses are not a run of the generated protocol; %d store a value "
+                           "that is not the returned one" % (len(cases), len(mism), len(nonfinal)))
+            rep.cov["streams"].setdefault("cache-traces", {})["nonfinal_store_calls"] = len(nonfinal)
+            if mism:
+                m = cases[mism[0]]
+                rep.broken("correspondence:cache-traces",
+                           "the logged accesses of %d real calls are not runs of the generated cache protocol (first: %s in %s at "
+                           "lines %s: %s)" % (len(mism), m[3]["entry"], m[3]["function"], m[3]["lines"], " ".join(m[2])))
+    # classification of what is in scope
+    bad = []
+    for i in sorted(in_scope):
+        c = cls2["caches"][i]
+        e = ca["entries"][i]
+        if c["verdict"] == 0:
+            continue
+        bad.append("%s: %s" % (e["name"], CVERDICT_NAMES.get(c["verdict"], "?")))
+        dev, tried = (None, 0)
+        if c["verdict"] == 2 and c["tag"]:
+            dev, tried = LN.cache_witness_replay(e, c["tag"])
+        if dev is not None:
+            t = dev["threads"][0]
+            sym, what, _ = LN.symptom(dev, t)
+            rep.count("cache-witness", tried, e["name"])
+            rep.finding("C20/cache/%s/placeholder-visible" % e["name"],
+                        "%s: the model's witness schedule replayed on the implementation (writer stopped right after line %d of %s, "
+                        "which puts a value that is not the computed one into the cache; a second thread then runs): thread %d (%s): %s"
+                        % (e["name"], c["tag"], e["file"], t, dev["ops"][t][0], what), dev)
+        else:
+            rep.broken("cache-protocol:" + e["name"],
+                       "the generated protocol of %s is classified %s (%s) and %d replayed witness schedules show no deviating outcome"
+                       % (e["name"], CVERDICT_NAMES.get(c["verdict"], "?"),
+                          {pr["fn"]: [a[0] for a in pr["acts"]] for pr in e["progs"]}, tried))
+    rep.obligation("regen:cache-protocols-safe", not bad,
+                   "every cache the operations touch only ever holds completely computed values (C20_cache_classified_safe applies)"
+                   if not bad else "; ".join(bad))
+    return in_scope
+
+
+def lines_stream(rep, tier, rnd):
+    from harness import c20lines as LN
+    t0 = time.time()
+    results, ntasks = LN.run_stream(tier, rnd, core.NPROC)
+    rep.cov["lines_stream_wall_s"] = round(time.time() - t0, 1)
+    n_sched = n_dev = n_to = 0
+    sites = set()
+    errors = []
+    st = rep.cov["streams"].setdefault("lines", {"evaluations": 0})
+    for r in results:
+        if r["error"]:
+            errors.append("%s %s: %s" % (r["profile"], r["ops"], r["error"][-300:]))
+            continue
+        if r["skipped"]:
+            rep.stat("lines", "skipped:%s:%s" % (r["profile"], r["skipped"][:60]))
+            continue
+        n_sched += r["schedules"]
+        n_to += r["timeouts"]
+        opsname = "+".join("%s:%s" % tuple(o) for o in r["ops"]) + ("/cold" if r["cold"] else "/warm")
+        rep.count("lines", r["schedules"])
+        for s_ in range(0, r["schedules"], max(1, r["schedules"] // 10)):
+            rep.distinct.add(("lines", r["profile"], opsname, r["chunk"], s_))
+        rep.stat("lines", "profile:" + r["profile"], r["schedules"])
+        rep.stat("lines", "ops:" + opsname, r["schedules"])
+        if r["chunk"] == 0:
+            for sq in r["seq"] or []:
+                rep.stat("lines", "alone-outcome:" + (sq[0] if sq[0] != "raise" else "raise:" + sq[1]))
+        sites.update(tuple(x) for x in r["sites"])
+        for d in r["deviations"]:
+            p = LN.PROFILE[d["profile"]]
+            for t in d["threads"]:
+                mult = 1 + d.get("more", 0)
+                n_dev += mult
+                sym, what, f15 = LN.symptom(d, t)
+                rep.stat("lines", "deviation:%s:%s%s" % (d["profile"], sym, ":F15-shaped" if f15 else ""), mult)
+                if f15 and f15 in p.get("racy_internal", {}):
+                    # the racy validator belongs to one of typedpy's own Structure classes (built internally by the operation)
+                    key = "C20/%s/_name-reread/internal:%s" % (p["racy"][f15], p["racy_internal"][f15])
+                elif f15 and p.get("racy", {}).get(f15):
+                    key = "C20/%s/_name-reread" % p["racy"][f15]
+                else:
+                    key = "C20/lines/%s/%s" % (LN.site_of(d), sym)
+                rep.finding(key, "%s, thread %d (%s, classes %s): %s" % (d["profile"], t, d["ops"][t][0],
+                                                                         "cold" if d["cold"] else "warm", what), d)
+    st["tasks"] = ntasks
+    st["chunks"] = len(results)
+    st["timeouts"] = n_to
+    st["deviating_thread_outcomes"] = n_dev
+    st["distinct_preemption_sites(file,function)"] = len(sites)
+    st["files_with_preemptions"] = sorted({s_[0] for s_ in sites})
+    rep.obligation("lines:explored", not errors and n_to * 50 <= max(1, n_sched),
+                   "%d schedules (pre-emption at every typedpy line of %d operation pairs x class states), pre-empted inside %d distinct "
+                   "functions of %d files; %d timeouts" % (n_sched, ntasks, len(sites), len({s_[0] for s_ in sites}), n_to)
+                   if not errors else "; ".join(errors[:3]))
+    if errors:
+        rep.broken("lines-stream", "exploration tasks failed: " + "; ".join(errors[:3]))
+    elif n_to * 50 > max(1, n_sched):
+        rep.broken("lines-stream", "%d of %d schedules did not finish (an operation blocks while another is pre-empted)" % (n_to, n_sched + n_to))
+    return n_sched
+
+
 # ------------------------------------------------------------------ run
 
 def run(rep, tier):
     from harness.genmods import shared_access as gen
     rnd = random.Random(core.seed() * 1000003 + 20)
     proofs_ok, model_ok = core.standard_proof_obligations(
-        rep, "C20", ["theories/Check/C20chk.vo", "theories/Global/SharedNameProofs.vo"])
+        rep, "C20", ["theories/Check/C20chk.vo", "theories/Check/C20cachechk.vo", "theories/Check/C20classchk.vo",
+                     "theories/Global/SharedNameProofs.vo", "theories/Global/CacheProofs.vo", "theories/Global/ClassModelProofs.vo"])
     rep.assumptions += [
         "PARTIAL: atomicity grain = source line (pre-emption points: the statements named in the generated "
         "shared-access table, the store lines of Field.__set__, every line of the cache-installing serializers, "
@@ -902,6 +1149,11 @@ def run(rep, tier):
         "theorems are about the thread model (Global/Threads.v); nested declarations are classified by tree_racy "
         "(no theorem at tree level) and checked by exploration",
         "lazily installed serializer closures are recognised syntactically (closure over the declaration only)",
+        "caches: the theorems are about the slot model (Global/Cache.v: one key, protocols = lists of lookups/stores); "
+        "which store is FINAL is recognised syntactically (the stored name is what the function returns afterwards) and "
+        "cross-checked dynamically (the stored object IS the returned object, unchanged); lru_cache is CPython's",
+        "lines stream: one pre-emption at every line boundary inside typedpy (quick: first and last occurrence of every "
+        "distinct source line per operation; thorough: first/last 3 occurrences + sampled two-pre-emption schedules)",
     ]
     sa = gen.shared_access()
     # today's per-validator Examples (informational: a fix of typedpy changes them)
@@ -920,6 +1172,52 @@ def run(rep, tier):
     rep.obligation("regen:shared-access-recognised", not undecided,
                    "every validator's access list is decided by the model" if not undecided
                    else "not decided (unrecognised construct / neither safe nor racy): " + ", ".join(undecided))
+
+    # ---- caches: generated protocols, their classification, logged real accesses, witness replay
+    from harness.genmods import cache_access as cgen
+    from harness import c20lines as LN
+    ca = cgen.cache_access()
+    trees = LN.profile_field_trees()
+    cls2, err2 = (None, "model not built")
+    class_idx = LN.class_entry_indices(sa)
+    if model_ok:
+        cls2, err2 = coq_classification2(sa, ca, trees, class_idx)
+    rep.obligation("model:cache-classification-evaluated", cls2 is not None, err2)
+    if cls2 is None:
+        rep.broken("model:cache-classification", "could not evaluate the classification of the generated cache table in Coq: " + err2)
+        rep.cov["lines_racy_fields"] = LN.set_racy(trees, [["?"] if any(x in repr(t) for x in ("Array.Each", "Deque.Each", "Tuple.Uniform")) else []
+                                                         for (_, _, _, t) in trees])
+    else:
+        rep.cov["lines_racy_fields"] = LN.set_racy(trees, cls2["racy"])
+    cache_stream(rep, ca, cls2, model_ok)
+    if cls2 is not None:
+        # class level: C20_class_safe_all_schedules applies to the classes decided safe; it must agree with the per-field verdicts
+        rep.cov["class_level_safe"] = {cn: {"fields_validators": [sa["entries"][i]["name"] for i in class_idx[cn][0]],
+                                            "scalar_fields": class_idx[cn][1], "safe": cls2["class_safe"].get(cn)}
+                                       for cn in sorted(class_idx)}
+        incons = []
+        for cn, (ids, _, unknown_v) in class_idx.items():
+            flat_racy = [sa["entries"][i]["name"] for i in ids if verdicts.get(sa["entries"][i]["name"]) not in (0, 1)]
+            if cls2["class_safe"].get(cn) != (not flat_racy) or unknown_v:
+                incons.append("%s: class_safe_b=%s, fields not classified safe: %s, validators not in the table: %s"
+                              % (cn, cls2["class_safe"].get(cn), flat_racy, unknown_v))
+        rep.obligation("model:class-level-agrees-with-fields", not incons,
+                       "%d classes: the class is decided safe exactly when every field's validator is (cells of different fields "
+                       "are disjoint after renaming); safe today: %s" % (len(class_idx), sorted(c for c, v in cls2["class_safe"].items() if v))
+                       if not incons else "; ".join(incons[:4]))
+        if incons:
+            rep.broken("model:class-level", "class-level decision and per-field classification disagree: " + "; ".join(incons[:4]))
+
+    # ---- census: which module-level / class-level state do the operations write at all?
+    census_unknown, census_all, census_ops = LN.shared_write_census(ca)
+    rep.cov["shared_state_written_by_operations"] = ["%s %s.%s" % k for k in census_all]
+    rep.count("census", census_ops, "ops")
+    rep.obligation("regen:shared-state-census", not census_unknown,
+                   "%d operations over %d class profiles write %d module-level / class-level names, all of them caches of the "
+                   "generated table or attributes installed by the listed class-install functions"
+                   % (census_ops, len(LN.PROFILES), len(census_all)) if not census_unknown
+                   else "module-level / class-level state written by operations and not accounted for by the generated tables: "
+                   + "; ".join("%s %s.%s" % k for k in census_unknown[:6]))
 
     # ---- dynamic cross-check of the generated table
     extra, unknown = access_table_check(rep, sa)
@@ -995,6 +1293,10 @@ def run(rep, tier):
         rep.sample({"kind": kname, "schedule": d["segments"], "observed": repr(d["observed"])[:300],
                     "sequential": repr(d["sequential"])[:300]})
 
+    # ---- every-line stream (class profiles, cold and warm class state)
+    n_lines = lines_stream(rep, tier, rnd)
+    rep.sample({"stream": "lines", "profile": LN.PROFILES[1]["name"], "classes": LN.PROFILES[1]["src"], "schedules_explored": n_lines})
+
     # ---- the model's witness schedule, replayed exactly
     if model_ok and verdicts:
         for k in KINDS:
@@ -1052,6 +1354,10 @@ def run(rep, tier):
     if unknown and not any(not v["no_input"] for v in rep.violations):
         rep.broken("regen:shared-access-complete",
                    "writes to shared Field objects outside the generated table and no deviating schedule found: %r" % list(unknown)[:5])
+    if census_unknown and not any(not v["no_input"] for v in rep.violations):
+        rep.broken("regen:shared-state-census",
+                   "operations write shared module-level / class-level state that no generated table accounts for, and no deviating "
+                   "schedule was found: " + "; ".join("%s %s.%s" % k for k in census_unknown[:6]))
     if undecided and not any(not v["no_input"] for v in rep.violations):
         rep.broken("regen:shared-access-recognised", "validators whose shared accesses the model cannot decide, and no deviating "
                    "schedule found: " + ", ".join(undecided))
@@ -1063,4 +1369,8 @@ def run(rep, tier):
              "(construct/deserialize/setattr/serialize, valid and invalid inputs, distinct instances of one shared class) per field "
              "kind (%d kinds), capped at %d per operation tuple (then all schedules with fewer pre-emptions + a seeded sample); "
              "traces: the same for the flat kinds with all accesses logged and checked against the model in Coq; "
-             "distinct = distinct (kind, operation tuple, schedule bucket) / (kind, schedule, validity)" % (max_pre, len(KINDS), cap))
+             "lines: %d class profiles (mappers, FastSerializable, nested, enum, trusted, inherited/immutable, wrappers) x operation "
+             "pairs x cold/warm class state, one pre-emption at every line boundary inside typedpy, both roles; cache-traces: every "
+             "real call of a cache-touching function with its accesses logged; "
+             "distinct = distinct (kind, operation tuple, schedule bucket) / (kind, schedule, validity) / (profile, operations, chunk, bucket)"
+             % (max_pre, len(KINDS), cap, len(LN.PROFILES)))
